@@ -12,10 +12,13 @@ package fasta
 // forever). "active" = a fault will be reported by the next ReadByte at end.
 
 //@ func reader.read
-//@   props C07 C11 C18
+//@   props C01 C06 C07 C11 C18
 //@   let S := r.r
 //@   let p0 := old(r.r.pos)
 //@   let active0 := S.fault && (!old(r.r.fired) || S.forever)
+//@   let named := p0 < S.end && S.in[p0] == '>'
+//@   let e1 := named ? fnl(S.in, p0 + 1, S.end) : p0
+//@   let e2 := e1 >= S.end ? S.end : ftm(S.in, e1 + 1, S.end)
 //@   ensures result.1 == nil <==> result.0 != nil
 //@   ensures p0 == S.end && !active0 ==> result.1 == 1
 //@   ensures result.1 == 1 ==> p0 == S.end
@@ -25,18 +28,36 @@ package fasta
 //@   ensures result.1 == nil ==> S.pos > p0
 //@   ensures S.pos >= p0 && S.pos <= S.end
 //@   ensures S.fired == (old(r.r.fired) || (result.1 != nil && result.1 != 1))
+//@   ensures @C01,C06 result.1 == nil ==> S.pos == e2
+//@   ensures @C01,C06 result.1 == nil && named ==> len(result.0.Name) == e1 - (p0 + 1) &&
+//@             forall j int :: p0 + 1 <= j && j < e1 ==> result.0.Name[j - (p0 + 1)] == S.in[j]
+//@   ensures @C01,C06 result.1 == nil && named ==> forall x int :: 0 <= x && x < len(result.0.Name) ==> result.0.Name[x] == S.in[p0 + 1 + x]
+//@   ensures @C01,C06 result.1 == nil && !named ==> len(result.0.Name) == 0
+//@   ensures @C01,C06 result.1 == nil ==> len(result.0.Sequence) == cnt(S.in, e1, e2)
+//@   ensures @C01,C06 result.1 == nil ==> forall j int :: e1 <= j && j < e2 && !nl(S.in[j]) ==> result.0.Sequence[cnt(S.in, e1, j)] == S.in[j]
 //@   loop 1
 //@     let q := r.r.pos
+//@     let pend := err == nil ? 1 : 0
+//@     let qq := q - pend
 //@     invariant r != nil && result != nil
 //@     invariant p0 <= q && q <= S.end
-//@     let pend := err == nil ? 1 : 0
 //@     invariant readAnything <==> q > p0 + pend
-//@     invariant err == nil ==> q > p0 && S.canUnread
+//@     invariant err == nil ==> q > p0 && S.canUnread && b == S.in[q - 1]
 //@     invariant err == nil ==> S.fired == old(r.r.fired)
 //@     invariant err != nil ==> q == S.end && (err == 1 || err == S.err)
 //@     invariant err != nil ==> ((err == S.err) <==> active0) && S.fired == (old(r.r.fired) || active0)
 //@     invariant (state == stateStart) <==> q == p0 + pend
 //@     invariant q >= p0 + pend
+//@     invariant state == stateStart || state == stateNewLine || state == stateName || state == stateSequence
+//@     invariant qq > p0 ==> ((state == stateName) <==> (named && qq <= e1))
+//@     invariant qq > p0 && !(named && qq <= e1) ==> ((state == stateNewLine) <==> nl(S.in[qq - 1])) && ((state == stateSequence) <==> !nl(S.in[qq - 1]))
+//@     invariant named ==> len(result.Name) == (qq <= e1 ? (qq > p0 ? qq - (p0 + 1) : 0) : e1 - (p0 + 1)) &&
+//@                 forall j int :: p0 + 1 <= j && j < qq && j < e1 ==> result.Name[j - (p0 + 1)] == S.in[j]
+//@     invariant !named ==> len(result.Name) == 0
+//@     invariant len(result.Sequence) == (qq > e1 ? cnt(S.in, e1, qq) : 0)
+//@     invariant forall j int :: e1 <= j && j < qq && !nl(S.in[j]) ==> result.Sequence[cnt(S.in, e1, j)] == S.in[j]
+//@     invariant forall x int :: e1 < x && x < qq ==> !term(S.in, x)
+//@     invariant qq <= e2
 //@     decreases (S.end - q) + (err == nil ? 1 : 0)
 
 //@ func reader.iter
@@ -82,13 +103,24 @@ package fasta
 //@   props C01 C07
 //@   requires !w.failed
 //@   let n := len(f.Sequence)
+//@   let L0 := old(len(w.out))
+//@   let B := old(len(w.out)) + len(f.Name) + 2
 //@   ensures result == nil <==> !w.failed
 //@   ensures result == nil || ioErr(result)
-//@   ensures result == nil ==> len(w.out) == old(len(w.out)) + 2 + len(f.Name) + n + (n+79)/80
+//@   ensures result == nil ==> len(w.out) == L0 + 2 + len(f.Name) + n + (n+79)/80
+//@   ensures @C01 result == nil ==> forall x int :: 0 <= x && x < L0 ==> w.out[x] == old(w.out)[x]
+//@   ensures @C01 result == nil ==> w.out[L0] == '>' && w.out[B - 1] == 10
+//@   ensures @C01 result == nil ==> forall x int :: L0 + 1 <= x && x < B - 1 ==> w.out[x] == f.Name[x - (L0 + 1)]
+//@   ensures @C01 result == nil ==> forall x int :: B <= x && x < len(w.out) ==> w.out[x] == fastaBody(f.Sequence, n, x - B)
+//@   ensures @C01 result == nil ==> wraps(arr(w.out), B, f.Sequence, n)
 //@   loop 1
 //@     invariant f != nil && !w.failed
 //@     invariant i % 80 == 0 && 0 <= i && i <= (n+79)/80*80
-//@     invariant len(w.out) == old(len(w.out)) + 2 + len(f.Name) + min(i, n) + i/80
+//@     invariant len(w.out) == L0 + 2 + len(f.Name) + min(i, n) + i/80
+//@     invariant forall x int :: 0 <= x && x < L0 ==> w.out[x] == old(w.out)[x]
+//@     invariant w.out[L0] == '>' && w.out[B - 1] == 10
+//@     invariant forall x int :: L0 + 1 <= x && x < B - 1 ==> w.out[x] == f.Name[x - (L0 + 1)]
+//@     invariant forall x int :: B <= x && x < len(w.out) ==> w.out[x] == fastaBody(f.Sequence, n, x - B)
 
 //@ func Fasta.MarshalText
 //@   props C01
